@@ -189,7 +189,7 @@ def run(tier: str) -> int:
             src = TEMPLATE.format(**d)
             _one(rep, wd, f"names|{key}", src, d["ent"], counts, rules, "names", finding_key=_names_key(key, d))
         # (c) E-PY
-        res, cpu = chrun.run_functions(epy_functions(), EPY_PRELUDE, per_cond=150 if tier == "quick" else 600, chunk=1)
+        res, cpu = chrun.run_functions(epy_functions(), EPY_PRELUDE, per_cond=600 if tier == "quick" else 1800, chunk=1)
         epy = {}
         for fn, (status, msg) in res.items():
             epy[fn] = status
